@@ -370,6 +370,15 @@ Definition received (cov covh : list str) (c : cfg) (parsed : list (str * str)) 
   let rs := at_sign_time c parsed i r0 in
   wire (rp_edits ip (r_headers rs) (director c (sign cov covh c rs))).
 
+(* Attempts. upstreamTransport.RoundTrip (reverse_proxy.go:31-41) makes one http.Transport.RoundTrip per
+   request and gives up on an error (the client gets 502); net/http itself re-sends a request only if it is
+   replayable (no body, or GetBody) and the connection it went out on was a reused one that died. Whatever
+   the number of attempts, each one that reaches the upstream is the SAME outgoing request: the body the
+   signers buffered is never handed out twice (a second attempt needs no body or fails before the wire). *)
+Definition attempts (n : nat) (cov covh : list str) (c : cfg) (parsed : list (str * str)) (i : option identity)
+           (ip : str) (r0 : request) : list request :=
+  repeat (received cov covh c parsed i ip r0) n.
+
 (* ------------------------------------------------------------------ verification at the upstream *)
 (* /oauth2/v1/certs: {key id: public key} (options.go:52-79) *)
 Definition published_certs (c : cfg) : list (key_id * N) :=
